@@ -99,7 +99,16 @@ func TestC11Sequential(t *testing.T) {
 				}
 				return host, fmt.Sprintf("request was served by %s, which is not (or no longer) a registered backend; model %v", host, multiset(model))
 			}
+			whist := 0 // largest total weight the pool has had so far
 			for i := 0; i < steps && viol == ""; i++ {
+				if t := func() (t int) {
+					for _, m := range model {
+						t += m.Weight
+					}
+					return
+				}(); t > whist {
+					whist = t
+				}
 				k := rapid.IntRange(0, 99).Draw(rt, "op")
 				switch {
 				case k < 22: // add
@@ -283,6 +292,11 @@ func TestC11Sequential(t *testing.T) {
 					total := 0
 					for _, i := range model {
 						total += i.Weight
+					}
+					// smooth weighted round robin carries its credit over membership changes: how long a backend may have to
+					// wait for its turn is bounded by the largest total weight the pool has had, not by the current one (C05)
+					if total < whist {
+						total = whist
 					}
 					kmax := 4*total + 4
 					if curStrategy == "ip_hash" || curStrategy == "ip_hash_consistent" {
